@@ -66,8 +66,26 @@ Resume(k) == /\ k \in 1..Len(cps)
              /\ off' = cps[k][1] /\ nextMsg' = cps[k][3] /\ need' = 0
              /\ saveSt' = "idle" /\ srcWant' = FALSE /\ srcCp' = -1 /\ got' = <<>>
              /\ UNCHANGED <<lens,kind,bounds,cps>>
+\* the SAME reader is rewound to a checkpoint (a patcher object that is resumed a second time keeps its reader):
+\* ReadContext.Resume resets the reader's save state, but the source object lives on - a save it was asked for stays
+\* pending (seeksource keeps its flag across Resume) and is handed over WHILE THE READER DISCARDS the
+\* Offset - sourceOffset bytes in front of the boundary. The checkpoint popped next pairs the boundary with a source
+\* offset inside [sourceOffset, Offset]. (Found by trace validation: the real reader popped a checkpoint where the
+\* first version of this spec, which reset srcWant on every Resume, said there was none.)
+Rewind(k) == /\ k \in 1..Len(cps)
+             /\ cps[k][2] <= cps[k][1]
+             /\ AtBoundary
+             /\ off' = cps[k][1] /\ nextMsg' = cps[k][3] /\ need' = 0 /\ got' = <<>>
+             /\ \E emit \in {-1} \cup (cps[k][2]..cps[k][1]) :
+                  /\ (emit # -1 => srcWant /\ cps[k][2] < cps[k][1])
+                  /\ (kind = "byte" => emit = IF srcWant /\ cps[k][2] < cps[k][1] THEN cps[k][2] ELSE -1)
+                  /\ (kind = "block" => emit = -1 \/ (emit \in bounds /\ emit > cps[k][2]))
+                  /\ saveSt' = IF emit # -1 THEN "has" ELSE "idle"
+                  /\ srcCp' = emit
+                  /\ srcWant' = IF emit # -1 THEN FALSE ELSE srcWant
+             /\ UNCHANGED <<lens,kind,bounds,cps>>
 Terminating == nextMsg > Len(lens) /\ need = 0 /\ UNCHANGED vars
-Next == Terminating \/ WantSave \/ Begin \/ (\E n \in 1..(MaxLen + 2) : SrcRead(n)) \/ Pop \/ (\E k \in 1..Len(cps) : Resume(k))
+Next == Terminating \/ WantSave \/ Begin \/ (\E n \in 1..(MaxLen + 2) : SrcRead(n)) \/ Pop \/ (\E k \in 1..Len(cps) : Resume(k) \/ Rewind(k))
 Spec == Init /\ [][Next]_vars
 (* ---- C13 ---- *)
 \* every popped checkpoint names a message boundary, the source part is not later than the reader part
